@@ -122,7 +122,7 @@ def specVerdict (cfg : Cfg) (p : Program) (edb : DB) (impl : String) : String ×
     let nt := !(m.get (queryRel p)).isEmpty && p.any (fun r => r.body.length ≥ 2)
     if impl.startsWith "err:" || headHasFacts p edb then ("na", false)   -- views cannot hold stored facts through any public path
     else if impl == want then (specOk, nt)
-    else (specFail (classify cfg p edb want) s!"want={want}", nt)
+    else (specFail (classify cfg p edb want) "answer-differs-from-least-model", nt)
 
 def sipHashDummy (_ : Tuple) : Nat := 0
 
